@@ -60,6 +60,9 @@ class FakeTime(object):
         return self.now
 
     def gmtime(self, t=None):
+        # like the C library: a time_t whose year does not fit struct tm is refused
+        if t is not None and not (-67768040609740800 <= t <= 67768036191676799):
+            raise OverflowError("timestamp out of range for platform time_t")
         return (2017, 7, 14, 2, 40, 0, 4, 195, 0)
 
     def strftime(self, fmt, t=None):
